@@ -115,8 +115,8 @@ def renderStore (st : Store) : String :=
 
 def renderFile (fs : FS) : String :=
   match fs.sel with
-  | none => "file -"
-  | some st => "file =" ++ renderStore st
+  | .parsed st => "file =" ++ renderStore st
+  | _ => "file -"
 
 /-- canonical store: later duplicates of a key removed (our `ainsert` never creates them) -/
 def hasMissing (s : String) : Bool := (s.splitOn "\x01MISSING").length > 1
@@ -258,8 +258,9 @@ def handle (st : St) (line : String) : IO St := do
     return { st with t := { st.t with bijoy := st.t.bijoy.insert (key (unescape s)) none } }
   | ["case", name] =>
     return { st with caseName := name, ctxs := {}, fs := {}, cases := st.cases + 1 }
-  | ["fs-sel", "-"] => return { st with fs := { st.fs with sel := none } }
-  | "fs-sel" :: "=" :: kv => return { st with fs := { st.fs with sel := some (pairs (kv.filter (· ≠ ""))) } }
+  | ["fs-sel", "-"] => return { st with fs := { st.fs with sel := .absent } }
+  | ["fs-sel", "!"] => return { st with fs := { st.fs with sel := .unreadable } }
+  | "fs-sel" :: "=" :: kv => return { st with fs := { st.fs with sel := .parsed (pairs (kv.filter (· ≠ ""))) } }
   | ["fs-ac", "-"] => return { st with fs := { st.fs with ac := none } }
   | ["fs-ac", t, "!"] => return { st with fs := { st.fs with ac := some (t.toNat!, none) } }
   | "fs-ac" :: t :: "=" :: kv => return { st with fs := { st.fs with ac := some (t.toNat!, some (pairs (kv.filter (· ≠ "")))) } }
